@@ -41,7 +41,7 @@ func init() {
 		Run: run,
 		Floors: func(t string) map[string]int64 {
 			m := map[string]int64{"cfg.overlapping": 200, "cfg.b_inside_a": 100, "cfg.b_inside_hole_of_a": 100, "cfg.a_inside_b": 100, "cfg.disjoint_bbox_overlap": 100,
-				"cfg.bbox_disjoint_both_axes": 100, "cfg.bbox_disjoint_one_axis": 100, "cfg.box_corners_inside_concave": 100, "cfg.tiny_next_to_huge": 100, "cfg.near_coincident": 150, "scale.1e-13..1e-10": 150, "scale.1e-6..1e15": 150, "points.judged": 100000, "area.identities_checked": 1000, "area.method_compared": 1000, "result.empty_correct": 500, "kind.nested": 50, "presentation.rings_shuffled_into_one_polygon": 300}
+				"cfg.bbox_disjoint_both_axes": 100, "cfg.bbox_disjoint_one_axis": 100, "cfg.box_corners_inside_concave": 100, "cfg.tiny_next_to_huge": 100, "cfg.empty_operand": 100, "cfg.near_coincident": 150, "scale.1e-13..1e-10": 150, "scale.1e-6..1e15": 150, "points.judged": 100000, "area.identities_checked": 1000, "area.method_compared": 1000, "result.empty_correct": 500, "kind.nested": 50, "presentation.rings_shuffled_into_one_polygon": 300}
 			for _, a := range []string{"Polygon", "MultiPolygon", "*Bounds"} {
 				for _, b := range []string{"Polygon", "MultiPolygon", "*Bounds"} {
 					m["pair."+a+"x"+b] = 40
@@ -64,6 +64,7 @@ type Operand struct {
 	Kind  string
 	Rings [][]exact.P // all rings (open) for membership
 	Area  *big.Rat    // exact area
+	Empty bool        // the empty region, presented as Polygon{}, MultiPolygon{}, MultiPolygon{Polygon{}} and the empty box
 }
 
 func rot(p geom.Path, cx, cy, th float64) geom.Path {
@@ -166,6 +167,9 @@ type presentation struct {
 
 func (o *Operand) presentations() []presentation {
 	var ps []presentation
+	if o.Empty {
+		return []presentation{{"Polygon", geom.Polygon{}}, {"MultiPolygon", geom.MultiPolygon{}}, {"MultiPolygon", geom.MultiPolygon{geom.Polygon{}}}, {"*Bounds", geom.NewBounds()}}
+	}
 	if len(o.Polys) == 1 {
 		ps = append(ps, presentation{"Polygon", o.Polys[0]})
 	}
@@ -264,6 +268,11 @@ func resultRings(res geom.Polygonal) (rings []geom.Path, isNil bool, problem str
 	}
 	for _, pg := range res.Polygons() {
 		for _, ring := range pg {
+			for _, p := range ring {
+				if math.IsNaN(p.X) || math.IsNaN(p.Y) || math.IsInf(p.X, 0) || math.IsInf(p.Y, 0) {
+					return nil, false, fmt.Sprintf("a ring with the non-finite vertex (%v, %v) from finite operands", p.X, p.Y)
+				}
+			}
 			rings = append(rings, ring)
 		}
 	}
@@ -352,7 +361,7 @@ func generalPosition(a, b *Operand, delta float64) bool {
 }
 
 var kinds = []string{"star", "star", "starholes", "starholes", "comb", "stair", "multi", "nested", "box", "box"}
-var configs = []string{"overlapping", "overlapping", "overlapping", "box_corners_inside_concave", "b_inside_a", "b_inside_hole_of_a", "a_inside_b", "disjoint_bbox_overlap", "bbox_disjoint_both_axes", "bbox_disjoint_one_axis", "tiny_next_to_huge"}
+var configs = []string{"empty_operand", "overlapping", "overlapping", "overlapping", "box_corners_inside_concave", "b_inside_a", "b_inside_hole_of_a", "a_inside_b", "disjoint_bbox_overlap", "bbox_disjoint_both_axes", "bbox_disjoint_one_axis", "tiny_next_to_huge"}
 
 func run(c *core.Ctx, idx int) {
 	r := c.R
@@ -394,6 +403,15 @@ func run(c *core.Ctx, idx int) {
 	ra := scale * r.Range(0.5, 1.5)
 	gpDelta := -1.0
 	switch cfg {
+	case "empty_operand":
+		// one operand is the empty region (an empty polygon, an empty multi-polygon, the empty box
+		// that Bounds() of an empty geometry returns)
+		a = GenOperand(r, ox, oy, ra, kinds[r.Intn(len(kinds))], maxVerts)
+		b = Operand{Cx: ox, Cy: oy, Out: ra, Kind: "empty", Empty: true}
+		b.finish()
+		if r.Bool() {
+			a, b = b, a
+		}
 	case "near_coincident":
 		// B is A enlarged or shrunk by a factor 1 +- e about its centre and shifted by about e*radius,
 		// e = 1e-12 .. 1e-7.5: no shared vertex, no collinear edges, but the boundaries run next to
